@@ -26,7 +26,7 @@ THEOREMS = ["copy_reads_equal", "copy_root_reads_equal", "mv_reads_equal_plain",
             "mv_source_gone_partial", "mv_source_gone_spec", "mv_source_gone_current_false", "d4_counterexample",
             "mv_cross_eq_cp", "mv_cross_file_keeps_source", "list_exact", "d5_counterexample", "isCooler_total",
             "create_append_frame", "create_root_append_frame", "create_w_replaces", "create_w_eq", "recreate_replaces",
-            "step_wf", "run_wf"]
+            "step_wf", "run_wf", "step_lf", "run_lf", "list_exact_history"]
 CHUNK = 1
 FANCHUNK = 75
 
@@ -551,14 +551,19 @@ def _prefixes(init, alphabet, depth):
 
 
 def _model_listing(ops):
-    r = drv().ask("C15.run", ops=[_strip_alt(o) for o in ops], files=[FA, FB], cands=[], observe_from=max(0, len(ops) - 1))
-    obs = r["steps"][-1].get("obs", {}) if ops else {}
+    """(collections the model lists in A and B after `ops`, does the last step end the history?) — used only to
+    steer the random generator towards existing sources and away from steps without a verdict"""
+    if not ops:
+        return [], False
+    r = drv().ask("C15.run", ops=[_strip_alt(o) for o in ops], files=[FA, FB], cands=[], observe_from=len(ops) - 1)
+    last = r["steps"][-1]
+    corner = Sess._corner(last) is not None
     out = []
     for f in (FA, FB):
-        l = obs.get(f, {}).get("list", {})
+        l = last["obs"].get(f, {}).get("list", {})
         if isinstance(l, dict) and "ok" in l:
             out += [(f, p) for p in l["ok"]]
-    return out
+    return out, corner
 
 
 def _random_history(rng, n):
@@ -571,25 +576,30 @@ def _random_history(rng, n):
                     "alt": rng.random() < 0.5})
     c = 2
     for _ in range(n):
-        r = rng.random()
-        if r < 0.22:
-            c += 1
-            ops.append({"op": "create", "uri": _uri(rng.choice([FA, FB]), rng.choice(PATHS), rng.random() < 0.5),
-                        "mode": rng.choice(["a", "a", "a", "w", "r+"]), "content": c, "alt": rng.random() < 0.5})
-            continue
-        kind = rng.choice(["cp", "cp", "mv", "mv", "ln", "lns", "lns"])
-        existing = _model_listing(ops)
-        if existing and rng.random() < 0.8:
-            sf, sp = rng.choice(existing)
-            if sp not in PATHS and rng.random() < 0.5:
-                sp = rng.choice(PATHS)
-        else:
-            sf, sp = rng.choice([FA, FB]), rng.choice(PATHS)
-        df = sf if rng.random() < 0.5 else rng.choice([FA, FB])
-        dp = rng.choice(PATHS)
-        op = {"op": kind, "src": _uri(sf, sp, rng.random() < 0.5), "dst": _uri(df, dp, rng.random() < 0.5), "alt": rng.random() < 0.5}
-        if rng.random() < 0.12:
-            op["overwrite"] = True
+        existing, _ = _model_listing(ops)
+        for attempt in range(6):
+            r = rng.random()
+            if r < 0.22:
+                c += 1
+                op = {"op": "create", "uri": _uri(rng.choice([FA, FB]), rng.choice(PATHS), rng.random() < 0.5),
+                      "mode": rng.choice(["a", "a", "a", "w", "r+"]), "content": c, "alt": rng.random() < 0.5}
+            else:
+                kind = rng.choice(["cp", "cp", "mv", "mv", "ln", "lns", "lns"])
+                if existing and rng.random() < 0.8:
+                    sf, sp = rng.choice(existing)
+                    if sp not in PATHS and rng.random() < 0.5:
+                        sp = rng.choice(PATHS)
+                else:
+                    sf, sp = rng.choice([FA, FB]), rng.choice(PATHS)
+                df = sf if rng.random() < 0.5 else rng.choice([FA, FB])
+                dp = rng.choice(PATHS)
+                op = {"op": kind, "src": _uri(sf, sp, rng.random() < 0.5), "dst": _uri(df, dp, rng.random() < 0.5),
+                      "alt": rng.random() < 0.5}
+                if rng.random() < 0.12:
+                    op["overwrite"] = True
+            # a step the model declines to describe would end the history: draw again (the last draw stays)
+            if attempt == 5 or not _model_listing(ops + [op])[1]:
+                break
         ops.append(op)
     return ops
 
